@@ -319,6 +319,8 @@ BOUNDED = [
      'history on one AVX / SSE planner: every ordered pair of requests over 11 (thorough 18) related lengths x 2 directions: len, direction, result equals the portable transform up to rounding', 'avx,sse'),
     ('dft_scalar', ['C01', 'C06', 'C12', 'C14'], 'dft_scalar:400+', 'dft_scalar:2500+',
      'floating-point algebra is outside both verifiers: FftPlannerScalar<f64> against the DFT definition through all four entry points (NaN-filled exact scratch and output): unit impulses and two-impulse sums for every n below the limit and structured lengths up to 16384 (thorough: up to 131072 incl. Bluestein/Rader primes above 65536), dense vector vs naive sum for n <= 256'),
+    ('compose', ['C01', 'C03', 'C09', 'C12'], 'compose:64,0', 'compose:96,1',
+     'composition of the PUBLIC constructors (C12) against the DFT definition: leaves Dft(1..7) and twelve fixed-size butterflies, both directions; depth 1: MixedRadix, MixedRadixSmall, GoodThomasAlgorithm(Small) over every ordered pair of leaves, Radix4 / Radix3::new_with_base (k <= 2), RadersAlgorithm (prime length), BluesteinsAlgorithm with the largest, second largest and smallest admissible length for the inner transform (inner length == 2 len - 1 included); composite length below the limit; thorough: depth 2 over a third of the depth-1 nodes and the small leaves; each built within its documented precondition (a panic is reported) and run through the four entry points with NaN-filled exact scratch'),
     ('primroot', ['C01', 'C06', 'C12', 'C14'], 'primroot:2000000', 'primroot:16777216',
      'assumed contract of math_utils::primitive_root (the Verus unit prime_roots proves distinct_prime_factors; that the returned root is a generator - multiplicative order p - 1, which is what makes Rader\'s index maps permutations - needs the theory of cyclic groups): every prime below the limit, order checked with an independent factorization and exponentiation'),
     ('sqrt_limit', ['C04'], 'sqrt_limit', 'sqrt_limit', 'A-sqrt: ((m*m) as f32).sqrt() as usize >= m for every m < 2^24 on this CPU (exhaustive)'),
